@@ -159,6 +159,58 @@ func phases(fset *token.FileSet, lit *ast.FuncLit) (seq []string, countArg strin
 	return
 }
 
+// txShape: how a batch entry point uses transactions — number of s.db.Write / s.db.Read calls in the
+// whole function, whether a Write call sits inside a loop, and the point-store / id-counter calls
+// that occur OUTSIDE the (first) write closure. The refinement proof treats "check, store, count,
+// flush" of one batch as one atomic transaction; this pins that the source does so.
+func txShape(fset *token.FileSet, fd *ast.FuncDecl) (writes, reads int, writeInLoop bool, outside []string) {
+	lit := writeClosure(fd)
+	var walk func(n ast.Node, inLoop bool)
+	walk = func(n ast.Node, inLoop bool) {
+		ast.Inspect(n, func(m ast.Node) bool {
+			switch x := m.(type) {
+			case *ast.ForStmt:
+				if x != n {
+					walk(x.Body, true)
+					return false
+				}
+			case *ast.RangeStmt:
+				if x != n {
+					walk(x.Body, true)
+					return false
+				}
+			case *ast.CallExpr:
+				if sel, ok := x.Fun.(*ast.SelectorExpr); ok {
+					if inner, ok := sel.X.(*ast.SelectorExpr); ok && inner.Sel.Name == "db" {
+						switch sel.Sel.Name {
+						case "Write":
+							writes++
+							if inLoop {
+								writeInLoop = true
+							}
+						case "Read":
+							reads++
+						}
+					}
+					if pkg, ok := sel.X.(*ast.Ident); ok && pkg.Name == "pointstore" {
+						if !(x.Pos() >= lit.Pos() && x.End() <= lit.End()) {
+							outside = append(outside, "pointstore."+sel.Sel.Name)
+						}
+					}
+				}
+				if id, ok := x.Fun.(*ast.Ident); ok && (id.Name == "changePointCount" || id.Name == "NewIdCounter") {
+					if !(x.Pos() >= lit.Pos() && x.End() <= lit.End()) {
+						outside = append(outside, id.Name)
+					}
+				}
+			}
+			return true
+		})
+	}
+	walk(fd.Body, false)
+	return
+}
+
 func leanList(xs []string) string {
 	q := make([]string, len(xs))
 	for i, x := range xs {
@@ -242,6 +294,11 @@ func main() {
 	fmt.Fprintf(&b, "def deletePhases : List String := %s\n", leanList(delSeq))
 	fmt.Fprintf(&b, "def deleteCountChange : String := %s\n", leanStr(delArg))
 	fmt.Fprintf(&b, "def updatePhases : List String := %s\n", leanList(updSeq))
+	fmt.Fprintf(&b, "\n/- shard/shard.go : transaction shape of the batch entry points: (number of s.db.Write calls, number of s.db.Read calls, a Write inside a loop, point-store / counter calls outside the write closure) -/\n")
+	for _, fn := range []string{"InsertPoints", "UpdatePoints", "DeletePoints"} {
+		w, r, l, o := txShape(fset, funcDecl(shardF, "Shard", fn))
+		fmt.Fprintf(&b, "def txShape%s : Nat × Nat × Bool × List String := (%d, %d, %v, %s)\n", fn, w, r, l, leanList(o))
+	}
 	b.WriteString("\nend Sema.Gen.FactsC01\n")
 	if err := os.MkdirAll(*out, 0o755); err != nil {
 		die("%v", err)
